@@ -1434,11 +1434,12 @@ def scenario_extras(exe, mode_arg, payload):
     name (typing / pydantic / enum / datetime / json) that it neither imports nor defines. C20: with uppercase_acronyms = ["ID", "URL"] no Go identifier
     keeps `Id` / `Url` (definitions, fields, alias targets, map values). C04: TypeScript keeps the payloads Option<T> and Option<Option<T>> of newtype
     variants apart; in every language a field with a per-language type override is marked optional exactly when it is Option<T> or has serde(default).
-    C03: a #[typeshare] associated const inside an impl block is generated or reported, not silently left out. C01: the fields of struct variants
-    follow rename_all_fields of the enum resp. rename_all of the variant. C15: doc text with backslashes leaves the Python module parsable."""
+    C03: a #[typeshare] associated const inside an impl block is generated or reported, not silently left out; a file reachable through two of the
+    given directories is generated once. C01: the fields of struct variants
+    follow rename_all_fields of the enum resp. rename_all of the variant. C14: run from inside the crate directory the module is still named after it. C15: doc text with backslashes leaves the Python module parsable."""
     pid = os.environ.get('VERIF_PID')
     def mine(m):
-        return m is None or pid is None or pid not in ('C01', 'C03', 'C04', 'C12', 'C15', 'C20') or ('(%s)' % pid) in m or not re.match(r'\(C\d\d\)', m)
+        return m is None or pid is None or pid not in ('C01', 'C03', 'C04', 'C12', 'C14', 'C15', 'C20') or ('(%s)' % pid) in m or not re.match(r'\(C\d\d\)', m)
     if mode_arg == 'check':
         if payload.get('kf'):
             m = kf_case(exe, payload['kf'])
@@ -1456,6 +1457,12 @@ def scenario_extras(exe, mode_arg, payload):
     m = assoc_const_case(exe)
     if m and mine(m):
         witness({'assoc_const': True}, m)
+    m = kf_folder_case(exe, 'dot_crate_name')
+    if m and mine('(C14) ' + m):
+        witness({'kf': 'dot_crate_name'}, '(C14) ' + m)
+    m = kf_round18_case(exe, 'two_roots')
+    if m and mine('(C03) ' + m):
+        witness({'kf': 'two_roots'}, '(C03) ' + m)
     print('no failing input among 6 languages + 1 associated const')
 
 
